@@ -430,6 +430,14 @@ kastore_read_file(kastore_t *self)
             }
         }
     }
+    /* Items are written in sorted key order and looked up by binary search,
+     * so keys that are out of order (or duplicated) mean a corrupt file. */
+    for (j = 1; j < self->num_items; j++) {
+        if (compare_items(&self->items[j - 1], &self->items[j]) >= 0) {
+            ret = KAS_ERR_BAD_FILE_FORMAT;
+            goto out;
+        }
+    }
 out:
     return ret;
 }
